@@ -168,22 +168,27 @@ def impl_call(shape, prm, pts):
     with np.errstate(divide="raise", invalid="raise", over="raise"):
         try:
             if shape == "sphere":
-                r = ct.points_in_sphere(P, a(prm["c"]), float(prm["r"]))
+                f, args = ct.points_in_sphere, (P, a(prm["c"]), float(prm["r"]))
             elif shape == "capsule":
-                r = ct.points_in_capsule(P, a(prm["A"]), float(prm["r"]), float(prm["h"]))
+                f, args = ct.points_in_capsule, (P, a(prm["A"]), float(prm["r"]), float(prm["h"]))
             elif shape == "ellipsoid":
-                r = ct.points_in_ellipsoid(P, a(prm["A"]), a(prm["radii"]))
+                f, args = ct.points_in_ellipsoid, (P, a(prm["A"]), a(prm["radii"]))
             elif shape == "disk":
-                r = ct.points_in_disk(P, a(prm["c"]), float(prm["r"]), a(prm["n"]))
+                f, args = ct.points_in_disk, (P, a(prm["c"]), float(prm["r"]), a(prm["n"]))
             elif shape == "cone":
-                r = ct.points_in_cone(P, a(prm["A"]), float(prm["r"]), float(prm["h"]))
+                f, args = ct.points_in_cone, (P, a(prm["A"]), float(prm["r"]), float(prm["h"]))
             elif shape == "cylinder":
-                r = ct.points_in_cylinder(P, a(prm["A"]), float(prm["r"]), float(prm["h"]))
+                f, args = ct.points_in_cylinder, (P, a(prm["A"]), float(prm["r"]), float(prm["h"]))
             elif shape == "box":
-                r = ct.points_in_box(P, a(prm["A"]), a(prm["size"]))
+                f, args = ct.points_in_box, (P, a(prm["A"]), a(prm["size"]))
             else:
-                r = ct.points_in_convex_mesh(P, a(prm["A"]), a(prm["verts"]).reshape(-1, 3),
-                                             np.array(prm["tris"], dtype=int).reshape(-1, 3))
+                f, args = ct.points_in_convex_mesh, (P, a(prm["A"]), a(prm["verts"]).reshape(-1, 3),
+                                                     np.array(prm["tris"], dtype=int).reshape(-1, 3))
+            # the caller keeps its arrays: the batch is asked twice with the SAME argument arrays and the second
+            # answer is the one that is judged (a predicate that scribbles into its arguments answers the second
+            # batch for another shape)
+            f(*args)
+            r = f(*args)
         except FloatingPointError:
             return {"err": "divZero"}
         except IndexError:
